@@ -11,6 +11,10 @@ fn main() {
         let u = spec.universe();
         ctx.run_slice(Slice::new(format!("predicates[{}]", spec.name()), u.count(), |i, loc| check::<B>(&u.get_open(i), loc)));
     }
+    let kmax = if quick { 6 } else { 8 };
+    let mut st = ohmc::props::structured::shapes(kmax);
+    st.extend(ohmc::props::structured::programs(kmax));
+    ctx.run_slice(Slice::new(format!("structured[sizes 1..{}: {} diagrams]", kmax, st.len()), st.len() as u64, |i, loc| check::<B>(&st[i as usize].1, loc)));
     let meta = Meta {
         rule: "every open hypergraph of the listed universes (isolated nodes, dangling nodes, repeated incidences, parallel connections of multiplicity up to 4-6) and every node index: is_acyclic (on the hypergraph and on the open hypergraph), is_monogamous, in_degree, out_degree against definitions by closure and counting; any panic is a violation; run under the checked (overflow checks, debug assertions) and the release-like profile; non-trivial = has an isolated node, a degree >= 3, a cycle, or is monogamous".into(),
         bounds: "quick: <=3 nodes, <=2 hyperedges of arity <=2, interfaces <=2; thorough adds 4 nodes, 3 hyperedges, arity 3".into(),
